@@ -483,8 +483,8 @@ fn lattice_cases() -> u64 {
 	NTYPES * start_modes().len() as u64 * DURS.len() as u64 * easings().len() as u64
 }
 /// tweens observed through the whole engine (AudioManager + device callbacks of arbitrary sizes)
-const ENGINE_CASES: u64 = 10;
-const ENGINE_NAMES: [&str; 10] = [
+const ENGINE_CASES: u64 = 11;
+const ENGINE_NAMES: [&str; 11] = [
 	"engine: tweener modulator 0->1 over 2 s linked to a sound's volume, 6 callback partitions of 32 frames (internal buffer 4)",
 	"engine: sound set_volume(-20 dB -> 0 dB over 2 s), 6 callback partitions",
 	"engine: clock set_speed(1 -> 4 ticks/s over 2 s) while the clock is not ticking, start 3 s later, 6 callback partitions",
@@ -495,6 +495,7 @@ const ENGINE_NAMES: [&str; 10] = [
 	"engine: streaming sound set_volume(0 dB -> -20 dB over 1 s) while its decoder delivers nothing for 4 s (6 callback partitions): when audio comes back the tween has long ended",
 	"engine: paused sound / track, resume_at(Delayed 1 s, fade-in of 2 s with a non-linear easing): once the start time is reached the fade follows its easing (chunk ends)",
 	"engine: volume control hosted in the feedback loop of a 4-frame delay, set_volume(0 -> -20 dB over 2 s): every output frame follows the recurrence with the tween's per-frame gain, 6 callback partitions",
+	"engine: track.set_send(-60 dB -> 0 dB over 1.5 s) / set_volume / child volume while the track is paused or waiting to resume for 2 s: a tween runs on elapsed time, so at the resume the value is the target",
 ];
 
 impl C06 {
@@ -1342,6 +1343,75 @@ fn engine_pass(which: u64, ctx: &mut Ctx) {
 				ctx.nontrivial_extra += 1;
 				ctx.state(hash64(&(which, out.len())));
 				ctx.outcome(hash64(&(which, out.len())));
+			}
+			10 => {
+				use kira::track::{SendTrackBuilder, TrackBuilder};
+				// a tween of something owned by a track that is not playing meanwhile: time passes all the same
+				for (what, waiting) in [(0usize, false), (0, true), (1, false), (1, true), (2, false)] {
+					let mut m = rig::manager(SR, IBS, rig::caps(2), MainTrackBuilder::new());
+					let send = m.add_send_track(SendTrackBuilder::new()).expect("send");
+					let mut t = m.add_sub_track(TrackBuilder::new().with_send(&send, Decibels::SILENCE)).expect("track");
+					let mut h = t.play(rig::static_data(SR, rig::dc_frames(4, 0.25)).loop_region(Region::from(..))).expect("play");
+					let mut sink = vec![];
+					rig::render_stereo(&mut m, IBS, &mut sink);
+					let instant = Tween { start_time: StartTime::Immediate, duration: Duration::ZERO, easing: Easing::Linear };
+					let one_s = Tween { start_time: StartTime::Immediate, duration: Duration::from_secs_f64(1.5), easing: Easing::Linear };
+					t.pause(instant);
+					if waiting {
+						t.resume_at(StartTime::Delayed(Duration::from_secs_f64(2.5)), instant);
+					}
+					rig::render_stereo(&mut m, IBS, &mut sink);
+					match what {
+						0 => t.set_send(&send, Decibels::IDENTITY, one_s).expect("route"),
+						1 => t.set_volume(Decibels(-20.0), one_s),
+						_ => h.set_volume(Decibels(-20.0), one_s),
+					}
+					// 2 s = 16 frames = 4 chunks while the track stands still
+					for _ in 0..4 {
+						rig::render_stereo(&mut m, IBS, &mut sink);
+						ctx.transitions += 1;
+					}
+					if !waiting {
+						t.resume(instant);
+					}
+					let mut out: Vec<(f32, f32)> = vec![];
+					for _ in 0..4 {
+						rig::render_stereo(&mut m, IBS, &mut out);
+						ctx.transitions += 1;
+					}
+					// (the chunk of the resume interpolates the fade; from its last frame on the level is plain)
+					let want = match what {
+						0 => 0.25 + 0.25,
+						1 => 0.25 * 10f64.powf(-1.0),
+						// a sound on a paused track does not advance: its own tween may wait with it (both readings are accepted)
+						_ => 0.25 * 10f64.powf(-1.0),
+					};
+					if std::env::var("KVH_DEBUG_C06").is_ok() {
+						eprintln!("E10 what={} waiting={} sink={:?} out={:?}", what, waiting, sink.iter().map(|f| f.0).collect::<Vec<_>>(), out.iter().map(|f| f.0).collect::<Vec<_>>());
+					}
+					let tail = &out[IBS - 1..];
+					let heard_before = sink[..IBS].iter().any(|f| f.0 != 0.0);
+					let silent_meanwhile = sink[2 * IBS..].iter().all(|f| f.0 == 0.0);
+					if !heard_before || !silent_meanwhile {
+						ctx.fail("machinery: the scene did not play / pause as arranged :: engine #10", format!("{}; what {} waiting {}: {:?}", desc(), what, waiting, sink));
+					} else if what < 2 {
+						if let Some((i, f)) = tail.iter().enumerate().find(|(_, f)| (f.0 as f64 - want).abs() > 1e-5) {
+							ctx.fail(
+								"a tween of a track's send level / volume that ran out while the track was paused is not at its target when the track plays again (time spent paused was not counted) :: engine #10".to_string(),
+								format!("{}; track with a sound (DC 0.25) and a send route at -60 dB; track paused{}; one callback; {}; 4 callbacks of {} frames (2 s); {}: frame {} after that = {} (main output = track + send), expected {}; output {:?}", desc(), if waiting { " and resume_at(Delayed 2.5 s, instant)" } else { "" }, ["set_send(0 dB, 1.5 s)", "set_volume(-20 dB, 1.5 s)"][what], IBS, if waiting { "the start time arrives" } else { "resume(instant)" }, IBS - 1 + i, f.0, want, out.iter().map(|f| f.0).collect::<Vec<_>>()),
+							);
+						}
+					} else {
+						// the child's tween: frozen with the track (starts from 0.25) or elapsed (at target) - never beyond, never louder
+						if let Some((i, f)) = out.iter().enumerate().find(|(_, f)| f.0 as f64 > 0.25 + 1e-6) {
+							ctx.fail("a sound's volume tween on a paused track overshoots :: engine #10", format!("{}; frame {} = {}", desc(), i, f.0));
+						}
+					}
+					ctx.nontrivial_extra += 1;
+					ctx.state(hash64(&(which, what, waiting)));
+				}
+				ctx.outcome(hash64(&(which, 0)));
+				break;
 			}
 			8 => {
 				use kira::track::TrackBuilder;
